@@ -307,3 +307,8 @@ def run(rep, programs):  # noqa: F811
     # beyond the managed range are handed out (frames over the metadata and header pages)
     from props import c06
     c06.r_init_coverage(rep, programs["core"])
+    # the metadata and header pages start right behind the managed frames: the range guard of LLFree::check is what keeps a
+    # targeted allocation or a free of a block that crosses the end from marking those pages free
+    from props import c08
+    c08.r_check_dom(rep, programs["core"])
+    c08.r_check_guards(rep, programs["core"])
